@@ -456,12 +456,12 @@ fn check_inner(c: &Case) -> Result<Stats, (String, String)> {
 }
 
 pub fn run(ctx: &Ctx, st: &mut Stats) -> Vec<Violation> {
-    let mut v = run_proptest(ctx, st, "images", ctx.cases(12_000, 300_000), strategy, check);
+    let mut v = run_proptest(ctx, st, "images", ctx.cases(12_000, 400_000), strategy, check);
     if !v.is_empty() {
         return v;
     }
     // R9: model-based call histories (see c11_hist.rs)
-    v.extend(run_proptest(ctx, st, "histories", ctx.cases(8_000, 200_000), super::c11_hist::strategy, super::c11_hist::check));
+    v.extend(run_proptest(ctx, st, "histories", ctx.cases(8_000, 400_000), super::c11_hist::strategy, super::c11_hist::check));
     v
 }
 
